@@ -18,7 +18,7 @@ import (
 
 // C13: query results are a pure function of the lists and the request.
 
-var c13Hosts = []string{"ads.com", "sub.ads.com", "tracker.io", "example.org", "site.com", "printer", "1.2.3.4", "::1", "bce.ca"}
+var c13Hosts = []string{"ads.com", "sub.ads.com", "tracker.io", "example.org", "site.com", "printer", "1.2.3.4", "::1", "bce.ca", "abc.cafe.de", gen.DeepHost}
 
 func c13List(c *core.Ctx) []string {
 	var lines []string
